@@ -649,8 +649,8 @@ def emit(pr):
     ds = pr["dshape"]
     text = pr["lazy"].replace("\\", "\\\\").replace('"', '\\"')
     src = ["struct %s {" % name,
-           "  template <class T> static void lazy(const T *const *in, T *dst) {"] + ld + ["    " + pr["lazy"], st, "  }",
-           "  template <class T> static void eager(const T *const *in, T *dst) {"] + ld + ["    " + l for l in pr["eager_lines"]] + ["    " + pr["eager"], st, "  }",
+           "  template <class T> static void lazy(const T *const *in, T *dst) { vf::ArmedThunk vf_armed_;"] + ld + ["    " + pr["lazy"], st, "  }",
+           "  template <class T> static void eager(const T *const *in, T *dst) { vf::ArmedThunk vf_armed_;"] + ld + ["    " + l for l in pr["eager_lines"]] + ["    " + pr["eager"], st, "  }",
            "  static const c09::Desc &desc() {",
            "    static const int ish[] = {%s};" % ", ".join(str(x) for x in (ish or [0])),
            "    static const int code[] = {%s};" % ", ".join(str(x) for x in (pr["code"] or [0])),
